@@ -252,10 +252,25 @@ def run_store_ops(case):
                     model[t] = c.tolist()
                     counters['older_unknown_inserted'] += 1
             elif k == 'batch':
+                # a batch as two stitched import pages deliver it: new minutes in order, possibly starting ON the last
+                # stored minute (overlap) and possibly repeating one of its own minutes (the later copy replaces)
+                variant = a % 3
+                t0 = last + step
+                if variant == 2 and keys:
+                    t0 = last
+                    counters['fault_overlap'] += 1
                 rows = []
                 for j in range(b):
                     val += 1
-                    rows.append(mk(last + step * (j + 1), val))
+                    rows.append(mk(t0 + step * j, val))
+                if variant == 1:
+                    j = (a // 3) % len(rows)
+                    val += 1
+                    rows.insert(j + 1, mk(rows[j][0], val))
+                    counters['fault_redelivery'] += 1
+                    counters['batch_with_repeated_minute'] = counters.get('batch_with_repeated_minute', 0) + 1
+                if not keys:
+                    counters['batch_into_empty_store'] = counters.get('batch_into_empty_store', 0) + 1
                 cs.batch_add_candle(np.array(rows), ex, sym, tf, with_generation=False)
                 for r in rows:
                     model[r[0]] = r.tolist()
@@ -467,6 +482,6 @@ CHECK = CandleFeedCheck(
     stub_components=['exchange REST driver (fake, lossy)', 'candle database: in-memory SQLite instead of Postgres', 'wall clock / sleep of the import loop (virtual)'] + COMMON_STUB,
     fault_kinds=['fault_lost_minutes', 'fault_duplicated', 'fault_shuffled', 'fault_redelivery', 'fault_late_candle', 'fault_overlap',
                  'fault_crash_mid_import', 'fault_restart'],
-    probes=['fills', 'ops', 'import_runs', 'fetch_calls', 'fill_calls', 'rows_checked', 'skipped_existing_batches', 'replaced_depth>=20', 'replaced_index_0_or_1', 'older_unknown_raised', 'older_unknown_inserted', 'older_unknown_ignored',
+    probes=['batch_into_empty_store', 'batch_with_repeated_minute', 'fills', 'ops', 'import_runs', 'fetch_calls', 'fill_calls', 'rows_checked', 'skipped_existing_batches', 'replaced_depth>=20', 'replaced_index_0_or_1', 'older_unknown_raised', 'older_unknown_inserted', 'older_unknown_ignored',
             'spacing_ok', 'spacing_5m', 'spacing_dup-first', 'spacing_reversed', 'spacing_2m', 'spacing_zero'],
 )
